@@ -25,7 +25,7 @@ RULE = (
 )
 ASSUMPTIONS = [
     "dual averaging reference: Hoffman & Gelman (2014) Algorithm 5 recursion in plain floats, agreement to 1e-11 relative",
-    "variance/covariance reference: exact rationals; tolerance 5*n*eps*(1+|mean|/std) relative (Welford/Chan conditioning)",
+    "variance/covariance reference: exact rationals; tolerance 20*n*eps*(1+|mean|/std) relative (Welford/Chan conditioning)",
 ]
 REQUIRED = {"da_updates_compared": 1000, "var_partitions": 100, "cov_partitions": 100, "init_searches": 20}
 BUDGET_S = {"quick": 90, "thorough": 900}
@@ -252,7 +252,7 @@ def case_moments(case, obs, which) -> None:
     metric = m.system.metric
     std = np.array([math.sqrt(float(cov[j][j])) if cov[j][j] > 0 else 0.0 for j in range(dim)])
     kappa = max((abs(float(mean[j])) / std[j]) if std[j] > 0 else 0.0 for j in range(dim))
-    tol = 5 * n * EPS * (1 + kappa) + 1e-14
+    tol = 20 * n * EPS * (1 + kappa) + 1e-14
     if which == "var":
         est_ref = np.array([float(cov[j][j] * w + regadd) for j in range(dim)])
         got = 1.0 / np.asarray(metric.diagonal, dtype=float)
